@@ -272,6 +272,11 @@ impl Shared {
         self.m.lock().unwrap_or_else(std::sync::PoisonError::into_inner)
     }
 
+    /// the decisions taken so far (used when a worker never yields again)
+    pub fn schedule_so_far(&self) -> Vec<u8> {
+        self.lock().schedule.clone()
+    }
+
     pub fn into_run(self: Arc<Self>) -> Run {
         // the workers drop their handle right after `exit`
         while Arc::strong_count(&self) > 1 {
